@@ -605,49 +605,93 @@ def rule_minsize(ctx):
 
 # ------------------------------------------------------------------ CUSUM
 def rule_cusum(ctx):
+  """The two cumulative-sums distances are max(A, -B) and max(A - S, S - B) with A = max of the walk, B = its min and S its end point, all including
+  S_0 = 0: so A >= 0 >= B must hold at the use.  Proved by sign analysis on the walker's values: an extremum is 0-clamped (max(0, .) / min(0, .)), or it
+  is the exit value of a loop in which it starts at 0 and only ever moves away from 0 (new > old under the path's own comparison)."""
   R = "R-C12-CUSUM"
   repo = ctx.repo
   f = repo.func(MOD, "RandomWalk")
-  par = {}
-  for n_ in ast.walk(f.node):
-    for ch in ast.iter_child_nodes(n_):
-      par[id(ch)] = n_
-  src = ast.unparse(f.node)
-  uses = "max(maxs - s, s - mins)" in src or "max(s - mins, maxs - s)" in src
-  if not uses:
-    ctx.incomplete(R, f.where, "reverse statistic", "max(maxs - s, s - mins) not found")
-    return
-  for var, want_sign, cmp_ok, agg in (("maxs", ">=", ("s > maxs", "maxs < s"), "max"), ("mins", "<=", ("s < mins", "mins > s"), "min")):
-    probs = []
-    n_assign = 0
-    for a in ast.walk(f.node):
-      if isinstance(a, ast.Assign) and len(a.targets) == 1 and isinstance(a.targets[0], ast.Name) and a.targets[0].id == var:
-        n_assign += 1
-        v = a.value
-        if isinstance(v, ast.Constant) and v.value == 0:
-          continue
-        if isinstance(v, ast.Name) and v.id == "s":
-          # must be dominated by s > maxs (resp. s < mins)
-          x = a
-          dom = False
-          while id(x) in par:
-            p = par[id(x)]
-            if isinstance(p, ast.If) and x in p.body and norm(p.test) in cmp_ok:
-              dom = True
-            x = p
-          if not dom:
-            probs.append("`%s = s` is not guarded by %s" % (var, cmp_ok[0]))
-          continue
-        if isinstance(v, ast.Call) and isinstance(v.func, ast.Name) and v.func.id == agg and not v.keywords \
-           and any(isinstance(arg, ast.Constant) and arg.value == 0 for arg in v.args) and len(v.args) >= 2:
-          continue   # max(0, ...) >= 0  /  min(0, ...) <= 0
-        probs.append("`%s` can place the %s on the wrong side of S_0 = 0 (the visited states may all lie on one side)" % (norm(a), "maximum" if var == "maxs" else "minimum"))
-      elif isinstance(a, ast.AugAssign) and isinstance(a.target, ast.Name) and a.target.id == var:
-        probs.append("`%s` modifies the extremum" % norm(a))
-    if n_assign == 0:
-      probs.append("no assignment found")
-    ctx.record(R, f.where, "%s %s 0 at the use" % (var, want_sign), not probs, "; ".join(probs) or
-               "initialised 0, only raised (lowered) under a strict comparison, fall-back clamped with 0: the extrema range over a set containing S_0")
+  w = sym.Walker(repo, f)
+  w.run()
+  calls = {}
+  for e in w.events:
+    if e.kind == "call" and e.data["name"].endswith(":CumulativeSumsPValue") and len(e.data["args"]) >= 2:
+      calls.setdefault(id(e.node), []).append(e)
+  if len(calls) != 2:
+    raise Incomplete("RandomWalk: expected two CumulativeSumsPValue call sites (forward and reverse), found %d" % len(calls), f.where)
+
+  def monotone(v, direction):
+    """v is the exit value of a loop variable that starts at 0 and on every pass stays or moves in `direction` (+1 up, -1 down)."""
+    for info in w.loop_info.values():
+      for vis in info["visits"]:
+        for nm, sv in vis["after_env"].items():
+          if sv is None or isinstance(sv, (Seq, Const, tuple)) or as_poly(sv) != v:
+            continue
+          pre = vis["pre_env"].get(nm)
+          if not (isinstance(pre, (Const, Poly)) and as_poly(pre).is_zero()):
+            return False
+          old = as_poly(vis["head"].env[nm])
+          for kind, val, s_, since, v2 in info["body_paths"]:
+            if v2 is not vis:
+              continue
+            if kind not in ("fall", "continue"):
+              return False
+            new = s_.env.get(nm)
+            if new is None or isinstance(new, (Seq, Const, tuple)):
+              return False
+            new = as_poly(new)
+            if new == old:
+              continue
+            ok_ = False
+            for fc in s_.facts[len(vis["head"].facts):]:
+              cl = canon_le(fc)
+              if cl is None:
+                continue
+              # direction +1: need old - new <= c with c <= 0 ; direction -1: new - old <= c with c <= 0
+              want = (old - new) if direction > 0 else (new - old)
+              if (cl[0] - (want - const_term(want))).is_zero() and cl[1] + const_term(want) <= 0:
+                ok_ = True
+            if not ok_:
+              return False
+          return True
+    return False
+
+  def signed(v, direction):
+    """direction +1: v >= 0 ; -1: v <= 0."""
+    if v.is_zero():
+      return True
+    a = v.as_atom()
+    if a is not None and a.kind == ("max" if direction > 0 else "min") and any(as_poly(x).is_zero() for x in a.args):
+      return True
+    return monotone(v, direction)
+
+  rows = {"forward": [], "reverse": []}
+  for evs in calls.values():
+    for e in evs:
+      d = as_poly(e.data["args"][1]).as_atom()
+      if d is None or d.kind != "max" or len(d.args) != 2:
+        rows["forward"].append("a distance is not the maximum of two excursions")
+        continue
+      p1, p2 = as_poly(d.args[0]), as_poly(d.args[1])
+      # split into (A - S, S - B): S is the walk's end point = exit value of the loop variable that is also added to / subtracted
+      best = None
+      for x, y in ((p1, p2), (p2, p1)):
+        for sA in [None] + [a_ for a_ in x.atoms() if a_.kind == "sym"]:
+          S = Poly.atom(sA) if sA is not None else Poly.const(0)
+          A, B = x + S, S - y
+          if sA is not None and (S.as_atom() in A.atoms() or S.as_atom() in B.atoms()):
+            continue
+          if signed(A, +1) and signed(B, -1):
+            best = (A, B, S)
+      kind = "reverse" if any(a_.kind == "sym" and a_ in p1.atoms() and a_ in p2.atoms() for a_ in p1.atoms()) else "forward"
+      if best is None:
+        rows[kind].append("max(%r, %r): no reading as (max - end, end - min) with max >= 0 >= min: an extremum can lie on the wrong side of S_0 = 0" % (p1, p2))
+      else:
+        rows[kind].append("")
+  for kind in ("forward", "reverse"):
+    bad = sorted({x for x in rows[kind] if x})
+    ctx.record(R, f.where, "%s distance uses extrema that include S_0 = 0" % kind, bool(rows[kind]) and not bad, "; ".join(bad)[:400] or
+               "%d path(s): max >= 0 >= min at the use (0-clamped fall-back, or started at 0 and only moved away from it)" % len(rows[kind]))
 
 
 # ------------------------------------------------------------------ FORMULA (term shape of the statistics, modulo field axioms)
